@@ -35,6 +35,10 @@ type Tmpl struct {
 type Req struct {
 	Method string   `json:"method"`
 	Target kit.BStr `json:"target"`
+	// Accept: an Accept header that names nothing the API produces ("" for none). It is sent only with requests that no
+	// template fits under their method: what it does to a routed request is another property's business (406), a miss
+	// stays a 404 or 405.
+	Accept string `json:"accept,omitempty"`
 }
 
 // Case is an API description and a batch of requests against it.
@@ -383,13 +387,13 @@ func judgeServed(level string, c Case, api parsedAPI, r Req, e expectation, b *b
 		if rec.Code != http.StatusMethodNotAllowed {
 			return kit.Failf("%s WANT-405: templates fit under %v but not under %s; status %d, body %q; %s", level, e.Allow, um, rec.Code, clipBody(rec), describe(c, r, e))
 		}
-		if got := allowSet(rec.Header()); !sameStrings(got, e.Allow) {
+		if got := allowSet(rec.Result().Header); !sameStrings(got, e.Allow) {
 			return kit.Failf("%s ALLOW: Allow lists %v, want exactly %v; %s", level, got, e.Allow, describe(c, r, e))
 		}
 		return nil
 	}
 	if rec.Code != http.StatusNotFound {
-		return kit.Failf("%s WANT-404: no template fits under any method; status %d (Allow %v), body %q; %s", level, rec.Code, allowSet(rec.Header()), clipBody(rec), describe(c, r, e))
+		return kit.Failf("%s WANT-404: no template fits under any method; status %d (Allow %v), body %q; %s", level, rec.Code, allowSet(rec.Result().Header), clipBody(rec), describe(c, r, e))
 	}
 	return nil
 }
@@ -500,6 +504,9 @@ func Check(c Case) *kit.Violation {
 				h = b.apiH
 			}
 			req, _ := readRequest(r)
+			if r.Accept != "" && e.Winner < 0 {
+				req.Header.Set("Accept", r.Accept)
+			}
 			b.hits, b.seen = nil, nil
 			rec := httptest.NewRecorder()
 			if v := kit.Guard(level+".ServeHTTP", func() { h.ServeHTTP(rec, req) }); v != nil {
@@ -514,6 +521,7 @@ func Check(c Case) *kit.Violation {
 				if served != nil {
 					again := served.Clone(served.Context())
 					again.Method, again.URL, again.RequestURI, again.Host = req.Method, req.URL, req.RequestURI, req.Host
+					again.Header = req.Header.Clone() // the new request's own headers (an Accept header of the earlier one is not its business)
 					b.hits, b.seen = nil, nil
 					rec2 := httptest.NewRecorder()
 					if v := kit.Guard("RoutesHandler.ServeHTTP (request object dispatched again)", func() { h.ServeHTTP(rec2, again) }); v != nil {
